@@ -176,6 +176,14 @@ def run(ctx):
     n_open = 1500 if ctx.thorough else 260
     for _ in range(n_open):
         bodies.append((1, gen_open(rng)))
+    # every NOTIFICATION (code, subcode) of the RFC range and beyond, with and without data
+    notif_pairs = [(c, s_) for c in range(0, 8) for s_ in range(0, 12)]
+    if not ctx.thorough:
+        notif_pairs = [(2, 1), (2, 2), (2, 6), (1, 1), (3, 1), (4, 0), (5, 0), (6, 2), (6, 4), (7, 0)] + rng.sample(notif_pairs, 12)
+    for c, s_ in notif_pairs:
+        bodies.append((3, bytes([c, s_])))
+        if (c + s_) % 3 == 0:
+            bodies.append((3, bytes([c, s_]) + b'\x08shutdown'))
     for _ in range(40 if ctx.thorough else 10):
         bodies.append((rng.choice([1, 2, 3, 4, 5, 128]), bytes(rng.randrange(256) for _ in range(rng.randrange(0, 64)))))
     bodies = [(ty, b) for ty, b in bodies if len(b) + 19 <= 4096]
@@ -202,11 +210,16 @@ def run(ctx):
             sname, prefix = states[0]       # OpenSent: the state in which an OPEN body is decoded and acted on
             if idx % 3 == 0:
                 sname, prefix, cid = 'OpenSent (second session)', second, 1
+        elif ty == 3 and idx % 2:
+            # NOTIFICATIONs also in the OpenSent of a second session (what ended the first one must not matter)
+            sname, prefix, cid = 'OpenSent (second session)', second, 1
         msg = MARK + struct.pack('!HB', 19 + len(body), ty) + body
         d = session.Driver()
         for e in prefix:
             d.apply(e)
-        events = [('data', cid, msg), ('data', cid, M['update_ok']), ('data', cid, M['keepalive'])]
+        # ... and finally the TCP connection goes away (completing a close the agent started, or a peer reset):
+        # the reconnect must be scheduled after that too
+        events = [('data', cid, msg), ('data', cid, M['update_ok']), ('data', cid, M['keepalive']), ('lost', cid)]
         n += 1
         n_rep0 = len(d.handler.calls)
         st_before = d.state()
